@@ -335,7 +335,7 @@ func layoutCases(c *hx.Ctx, r *hx.Rng) {
 	for i := 0; i < n; i++ {
 		id := fmt.Sprintf("d/layout/%d", i)
 		rr := r.Fork()
-		if !c.Want(id) && !c.Want(fmt.Sprintf("d/read/%d", i)) {
+		if !c.Want(id) && !c.Want(fmt.Sprintf("d/read/%d", i)) && !c.Want(fmt.Sprintf("d/pvd/%d", i)) && !c.Want(fmt.Sprintf("d/readp/%d", i)) && !c.Want(fmt.Sprintf("d/encimg/%d", i)) {
 			continue
 		}
 		// start 0 only: where the image lands for other starts is a recorded defect, not layout arithmetic
@@ -439,6 +439,7 @@ func layoutCases(c *hx.Ctx, r *hx.Rng) {
 			c.Stat("corr.layout")
 			c.Distinct("layout|" + cf.String() + "|" + root.describe())
 		}
+		imageCases(c, i, cf, b, loc) // whole-image model: PVD codec, pure reader, the model's own encoding of the image
 		// the Lean reader on the real bytes (plain trees: it knows nothing of Rock Ridge names)
 		id2 := fmt.Sprintf("d/read/%d", i)
 		volBytes := int64(img.volBlocks) * cf.bs
